@@ -1,3 +1,4 @@
+import Sparrow.Proofs.BakeKernelEquiv
 import Sparrow.Proofs.PipelineEnergy
 import Sparrow.Proofs.Batch2
 import Sparrow.Generated.Constants
@@ -88,3 +89,36 @@ theorem runPipeline_att_antitone
   Sparrow.runPipeline_att_antitone eta thr room mat par src recv m m' h0 hm bk r r' hb hr hr' hT hF hA hsrc hrcv
 
 end Sparrow.Props.C10
+
+namespace Sparrow.Props.C10.BakeKernels
+open Sparrow Sparrow.Generated.BakeKernels
+
+/-- `_form_factors_with_directivity_dim` as translated = `BakeScene.fft` of the scene read off its
+    arguments: form factor from the upper triangle by reciprocity, `exp(-m·d)` over the centre
+    distance taken BEFORE normalising, and the table of the RECEIVING patch's wall at the incoming
+    sample nearest to the direction towards the sender. -/
+theorem formFactorsWithDirectivityDim_eq (P D nIn B W T : Nat) (vis : Nat → Nat → Bool) (F : Nat → Nat → ℝ)
+    (pc : Nat → Nat → ℝ) (area : Nat → ℝ) (att : Option (Nat → ℝ)) (wall : Nat → Nat)
+    (scat : Option (Nat → Nat → Nat → Nat → ℝ)) (sidx : Nat → Nat)
+    (sources receivers : Nat → Nat → Nat → ℝ) (recvOpt : Option (Nat → Nat → Nat → ℝ))
+    (s0 s1 s2 s3 s4 s5 s6 s7 s8 s9 : Nat)
+    (i j d b : Nat) (hi : i < P) (hj : j < P) :
+    formFactorsWithDirectivityDim s0 s1 vis s2 s3 F B P 3 pc s4 area s5 att s6 wall T nIn D B scat s7 sidx
+        W nIn 3 sources s8 D s9 recvOpt i j d b =
+      (bakeSceneOfArgs P D nIn vis F pc area att wall scat sidx sources receivers b).fft i j d :=
+  Sparrow.formFactorsWithDirectivityDim_eq P D nIn B W T vis F pc area att wall scat sidx sources receivers recvOpt s0 s1 s2 s3 s4 s5 s6 s7 s8 s9 i j d b hi hj
+
+/-- `_add_directional` as translated = `BakeScene.addDirectional`: the initial energy of patch `i`
+    times the table of ITS wall at the incoming sample nearest to the direction towards the source. -/
+theorem addDirectional_eq (P D nIn B W T : Nat) (energy_0 : Nat → Nat → ℝ) (src : Nat → ℝ)
+    (pc : Nat → Nat → ℝ) (wall : Nat → Nat) (sources receivers : Nat → Nat → Nat → ℝ)
+    (scat : Nat → Nat → Nat → Nat → ℝ) (sidx : Nat → Nat)
+    (vis : Nat → Nat → Bool) (F : Nat → Nat → ℝ) (area : Nat → ℝ) (att : Option (Nat → ℝ))
+    (s0 s1 s2 s3 s4 s5 : Nat)
+    (i d b : Nat) (hi : i < P) :
+    addDirectional s0 s1 energy_0 3 src P 3 pc B s2 wall W nIn 3 sources s3 D s4 receivers T nIn D B scat s5 sidx i d b =
+      (bakeSceneOfArgs P D nIn vis F pc area att wall (some scat) sidx sources receivers b).addDirectional
+        ⟨src 0, src 1, src 2⟩ (fun k => energy_0 k b) i d :=
+  Sparrow.addDirectional_eq P D nIn B W T energy_0 src pc wall sources receivers scat sidx vis F area att s0 s1 s2 s3 s4 s5 i d b hi
+
+end Sparrow.Props.C10.BakeKernels
